@@ -25,7 +25,8 @@ EXC_MENU = [
     'IndexError', 'RuntimeError', 'StopIteration', 'NameError',
     'UnsupportedLanguageElementError', 'InaccessibleSourceCodeError',
 ]
-EXC_QUICK = ['OSError:ENOSPC', 'MemoryError', 'KeyError', 'UnsupportedLanguageElementError']
+EXC_QUICK = ['OSError:ENOSPC', 'MemoryError', 'KeyError', 'UnsupportedLanguageElementError', 'ValueError',
+             'AssertionError']
 
 
 class Injected(object):
@@ -196,6 +197,7 @@ class Injector(object):
     self.depth = {}           # thread ident -> nesting depth inside the pipeline
     self.convs = {}           # thread ident -> number of pipeline entries so far
     self.scoped = False
+    self.scope_raised = []    # thread idents: one entry per pipeline call that exited by an exception
     for key in (SCOPE_KEYS if scope_keys is None else scope_keys):
       self._install_scope(key)
 
@@ -207,6 +209,7 @@ class Injector(object):
     depth = self.depth
 
     convs = self.convs
+    raised = self.scope_raised
 
     def scope(*a, **k):
       ident = _thread.get_ident()
@@ -214,6 +217,9 @@ class Injector(object):
       convs[ident] = convs.get(ident, 0) + 1
       try:
         return fn(*a, **k)
+      except BaseException:
+        raised.append(ident)
+        raise
       finally:
         depth[ident] -= 1
     scope.__name__ = fn.__name__
